@@ -123,8 +123,7 @@ REG.add(Contract(f"{D2R}._generate_rule", module=M_D2R, kind="method", params=di
                           "forall(Filter, lambda f: (f in unwrap(result._configuration.modules_to_check_against)) == exists(Node, lambda t: (t in importees) and f == mk_filter_name(t)))",
                           "result._configuration.should_only == self._should_only_rule", "result._configuration.should == (not self._should_only_rule)", "not result._configuration.should_not",
                           "result._configuration.import_ == True", "not result._configuration.except_present", "not result._configuration.rule_object_anything",
-                          "result._modules_to_check_to_be_specified_next == False", "result._rule_matcher_class == class_DefaultRuleMatcher()",
-                          "result == rule_rec(importer, name_filters(importees), not self._should_only_rule, self._should_only_rule, False)"],
+                          "result._modules_to_check_to_be_specified_next == False", "result._rule_matcher_class == class_DefaultRuleMatcher()"],
                  properties=["C07"]))
 
 # ---------------------------------------------------------------- DependencyToRuleConverter: the LIST of generated rules (C07)
@@ -132,50 +131,64 @@ REG.add(Contract(f"{D2R}._generate_rule", module=M_D2R, kind="method", params=di
 # call chain, so its snapshot is its final state (the engine refuses to store a record that is still reachable under a name).
 
 
-def _set_fn(name, params, elem, elem_type, body):
-    """speclib.set_function for parameters that are records / dicts (flattened into their component terms):
-    name(params) = {elem | body} as ONE uninterpreted symbol with its definitional axiom (conservative extension)."""
+def _set_fn(name, ctx, idx, elem, elem_type, body):
+    """A set-valued specification function  name[ctx](idx) = {elem | body}.  The CONTEXT arguments (records / dicts / sets: e.g. the parsed diagram) must be
+    closed terms of the verification condition; they are baked into the symbol (one symbol per distinct context, named by a digest of the context terms), and the
+    definitional axiom quantifies over the INDEX arguments and the element only -- never over arrays, which keeps the VCs inside the fragment where z3 / cvc5 can
+    also find counter-models (an axiom quantified over an array-valued argument makes every 'sat' answer 'unknown'). Conservative extension per context."""
+    import hashlib
     from pyvc.vals import parse_type, sort_of, to_term
-    ptypes = {k: parse_type(v) for k, v in params.items()}
+    from pyvc.state import OutOfSubset
+    ctypes_ = {k: parse_type(v) for k, v in ctx.items()}
+    itypes = {k: parse_type(v) for k, v in idx.items()}
     et = parse_type(elem_type)
     rng = z3.ArraySort(sort_of(et), z3.BoolSort())
-    state = {}
+    syms = {}
 
     def fn(eng, st, *args):
-        vs = [eng.reg.as_membership(eng, a) if t[0] in ("bag", "set") else eng.typed(a, t) for a, t in zip(args, ptypes.values())]
-        terms = [t for v in vs for t in eng.reg.flatten(v)]
-        if "f" not in state:
-            state["f"] = z3.Function(name, *[t.sort() for t in terms], rng)
-        if name not in eng.axioms_used:
-            eng.axioms_used[name] = z3.BoolVal(True)
+        cvs = [eng.reg.as_membership(eng, a_) if t[0] in ("bag", "set") else eng.typed(a_, t) for a_, t in zip(args[:len(ctypes_)], ctypes_.values())]
+        ivs = [eng.typed(a_, t) for a_, t in zip(args[len(ctypes_):], itypes.values())]
+        cterms = [t for v in cvs for t in eng.reg.flatten(v)]
+        iterms = [t for v in ivs for t in eng.reg.flatten(v)]
+        text = " ".join(t.sexpr() for t in cterms)
+        if "@" in text:
+            raise OutOfSubset(f"specification function {name}: context argument depends on a bound variable")
+        key = name + ("!" + hashlib.md5(text.encode()).hexdigest()[:8] if cterms else "")
+        if key not in syms:
+            syms[key] = z3.Function(key, *[t.sort() for t in iterms], rng) if iterms else z3.Const(key, rng)
+        f_ = syms[key]
+        if key not in eng.axioms_used:
+            eng.axioms_used[key] = z3.BoolVal(True)
             saved_bound, saved_spec, saved_q = dict(eng.bound), eng.spec, getattr(eng, "qdepth", 0)
             eng.spec, eng.qdepth = True, 80
             try:
-                pvs = {pn: eng.bvar("ax!" + pn, pt) for pn, pt in ptypes.items()}
+                pvs = {pn: eng.bvar("ax!" + pn, pt) for pn, pt in itypes.items()}
                 ev_ = eng.bvar("ax!" + elem, et)
-                eng.bound = dict(pvs)
+                eng.bound = dict(zip(ctypes_, cvs))
+                eng.bound.update(pvs)
                 eng.bound[elem] = ev_
                 eng.qdepth = 81
                 from pyvc.state import State as _S
-                b = eng.truth(eng.ev1(eng.reg.parse_spec(body), _S()))
+                b_ = eng.truth(eng.ev1(eng.reg.parse_spec(body), _S()))
                 consts = [c for v in pvs.values() for c in eng.reg.consts_of(v)] + eng.reg.consts_of(ev_)
-                app = z3.Select(state["f"](*[t for v in pvs.values() for t in eng.reg.flatten(v)]), to_term(ev_))
-                eng.axioms_used[name] = z3.ForAll(consts, app == b, patterns=[app])
+                arr = f_(*[t for v in pvs.values() for t in eng.reg.flatten(v)]) if iterms else f_
+                app = z3.Select(arr, to_term(ev_))
+                eng.axioms_used[key] = z3.ForAll(consts, app == b_, patterns=[app])
             finally:
                 eng.bound, eng.spec, eng.qdepth = saved_bound, saved_spec, saved_q
-        return V(("bag", et), state["f"](*terms))
+        return V(("bag", et), f_(*iterms) if iterms else f_)
 
     REG.specfuns[name] = fn
     return fn
 
 
 PD = "ParsedDependencies"
-# the name filters of a set of components / of one component
-_set_fn("name_filters", dict(T="Set[Node]"), "f", "Filter", "exists(Node, lambda t: (t in T) and f == mk_filter_name(t))")
-_set_fn("one_filter", dict(a="Node"), "f", "Filter", "f == mk_filter_name(a)")
-# not_drawn(pd, a) = the OTHER components that a has NO arrow to:  K - {a} - T(a)
+_set_fn("one_filter", {}, dict(a="Node"), "f", "Filter", "f == mk_filter_name(a)")
+# is_not_drawn(pd, a, t): t is ANOTHER component that a has NO arrow to:  t in K - {a} - T(a)
 REG.macro("is_not_drawn", ["pd", "a", "t"], "(t in pd.all_modules) and t != a and not ((a in pd.dependencies) and (t in pd.dependencies[a]))")
-_set_fn("not_drawn", dict(pd=PD, a="Node"), "t", "Node", "is_not_drawn(pd, a, t)")
+# the name filters of the drawn targets of a / of the other components a has no arrow to, in the diagram pd
+_set_fn("pos_objs", dict(pd=PD), dict(a="Node"), "f", "Filter", "exists(Node, lambda t: (t in pd.dependencies[a]) and f == mk_filter_name(t))")
+_set_fn("neg_objs", dict(pd=PD), dict(a="Node"), "f", "Filter", "exists(Node, lambda t: is_not_drawn(pd, a, t) and f == mk_filter_name(t))")
 # rule_rec(a, O, s, so, sn): THE record of a finished rule 'modules named a <verb> import modules <O>': subject = exactly the component a (by name),
 # direction import, the verb flags, no 'except', no 'anything', default matcher, object side closed. Every field is fixed, so equality with it pins the whole Rule.
 REG.macro("rule_rec", ["a", "O", "v_should", "v_should_only", "v_should_not"],
@@ -183,9 +196,9 @@ REG.macro("rule_rec", ["a", "O", "v_should", "v_should_only", "v_should_not"],
           "modules_to_check=one_filter(a), modules_to_check_against=O, should=v_should, should_only=v_should_only, should_not=v_should_not, "
           "except_present=False, import_=True, rule_object_anything=False))")
 # R+(a): the positive rule of a component with arrows: objects = exactly its drawn targets, should_only in the default mode / should otherwise
-REG.macro("rule_pos", ["pd", "a", "so"], "rule_rec(a, name_filters(pd.dependencies[a]), not so, so, False)")
+REG.macro("rule_pos", ["pd", "a", "so"], "rule_rec(a, pos_objs(pd, a), not so, so, False)")
 # R-(a): the should_not rule of a component: objects = exactly the other components it has no arrow to
-REG.macro("rule_neg", ["pd", "a"], "rule_rec(a, name_filters(not_drawn(pd, a)), False, False, True)")
+REG.macro("rule_neg", ["pd", "a"], "rule_rec(a, neg_objs(pd, a), False, False, True)")
 REG.macro("has_neg", ["pd", "a"], "exists(Node, lambda t: is_not_drawn(pd, a, t))")
 REG.macro("pos_rules_are", ["R", "pd", "so"], "forall(Rule, lambda r: (r in R) == exists(Node, lambda a: (a in pd.dependencies) and r == rule_pos(pd, a, so)))")
 REG.macro("neg_rules_are", ["R", "pd", "K"], "forall(Rule, lambda r: (r in R) == exists(Node, lambda a: (a in K) and has_neg(pd, a) and r == rule_neg(pd, a)))")
@@ -200,6 +213,19 @@ REG.add(Contract(f"{D2R}._convert_should_not_rules", module=M_D2R, kind="classme
                  ensures=["neg_rules_are(result, parsed_dependencies, parsed_dependencies.all_modules)"],
                  locals=dict(rules="Bag[Rule]", imported="Set[Node]", all_other_modules="Set[Node]", not_imported="Set[Node]", sorted_not_imported="Bag[Node]"),
                  loops={0: dict(sig="for possible_importer in sorted(parsed_dependencies.all_modules)", invariant=["neg_rules_are(rules, parsed_dependencies, seen)"])},
+                 # the forbidden objects of a component, stated on plain sets of names (a decidable fragment: a wrong set is REFUTED with a small model, not merely undecided)
+                 ghost_at={"if not_imported": ["forall(Node, lambda t: (t in not_imported) == is_not_drawn(parsed_dependencies, possible_importer, t))"],
+                           "rules.append(": ["forall(Node, lambda t: (t in sorted_not_imported) == is_not_drawn(parsed_dependencies, possible_importer, t))"]},
+                 properties=["C07"]))
+REG.add(Contract(f"{D2R}._convert_should_not_rules@sets", qualname=f"{D2R}._convert_should_not_rules", module=M_D2R, kind="classmethod", params=dict(parsed_dependencies=PD), returns="Bag[Rule]",
+                 # second contract of the SAME function, nothing assumed about the rule list (trivial invariant, no postcondition): only the set-level facts of one iteration, so
+                 # their VCs have no quantifier over rule records and a wrong set of forbidden objects is REFUTED with a small model (in the full contract above the same ghost
+                 # assertions sit behind the invariant over rule records, where the solvers can prove but not find counter-models)
+                 locals=dict(rules="Bag[Rule]", imported="Set[Node]", all_other_modules="Set[Node]", not_imported="Set[Node]", sorted_not_imported="Bag[Node]"),
+                 loops={0: dict(sig="for possible_importer in sorted(parsed_dependencies.all_modules)", invariant=["True"])},
+                 ghost_at={"if not_imported": ["forall(Node, lambda t: (t in not_imported) == is_not_drawn(parsed_dependencies, possible_importer, t))"],
+                           "rules.append(": ["forall(Node, lambda t: (t in sorted_not_imported) == is_not_drawn(parsed_dependencies, possible_importer, t))",
+                                             "exists(Node, lambda t: is_not_drawn(parsed_dependencies, possible_importer, t))"]},
                  properties=["C07"]))
 REG.add(Contract(f"{D2R}.convert", module=M_D2R, kind="method", params=dict(self=D2R, dependencies=PD), returns="Bag[Rule]",
                  # C07: the rule list is exactly {R+(a) | a has arrows} + {R-(a) | a in K, K - {a} - T(a) non-empty}
